@@ -25,7 +25,7 @@ from dvc_data.index.serialize import read_db, read_json, write_db, write_json  #
 
 EXACT = ("isdir", "size", "nfiles", "isexec")
 TEXT = ("version_id", "etag", "checksum", "md5", "remote")
-PARTS = ["a", "b", "bäz", "d ir", "é", "x.dir"]
+PARTS = ["a", "b", "bäz", "d ir", "é", "x.dir", ".", "..", ".hidden", "a\\b", " "]  # legal key parts: anything without a slash
 
 
 def md5(b):
@@ -160,7 +160,7 @@ def main():
             except Exception as e:  # noqa: BLE001
                 failures.append({"problems": [f"raised {type(e).__name__}: {str(e)[:120]}"]})
     print(json.dumps({"evaluations": n, "distinct_nontrivial": n, "n_failures": len(failures), "failures": failures[:4],
-                      "bound": f"{n} seeded indexes: <= 6 entries, depth <= 3, non-ASCII parts, optional meta/hash/loaded, false-y values; "
+                      "bound": f"{n} seeded indexes: <= 6 entries, depth <= 3, non-ASCII / dot / backslash / blank parts, optional meta/hash/loaded, false-y values; "
                                "json, key-value db, sqlite with commit/close/reopen, a lazily loaded directory object, in-place updates, rollback + repeat, deletions below a loaded directory"}))
 
 
